@@ -26,7 +26,7 @@ pub struct Case {
 pub struct C16;
 
 const INT_POOL: [&str; 10] = ["0", "1", "-1", "9223372036854775807", "-9223372036854775808", "9223372036854775806", "9007199254740992", "9007199254740993", "42", "-42"];
-const REAL_POOL: [&str; 18] = ["0.0", "-0.0", "1.5", "-1.5", "inf", "-inf", "NaN", "5e-324", "1e308", "-1e308", "2.0", "9007199254740993.0", "0.1", "42.0", "-NaN", "-9223372036854775808.0", "9223372036854775808.0", "-1.0"];
+const REAL_POOL: [&str; 21] = ["0.3", "0.30000000000000004", "0.29999999999999993", "0.0", "-0.0", "1.5", "-1.5", "inf", "-inf", "NaN", "5e-324", "1e308", "-1e308", "2.0", "9007199254740993.0", "0.1", "42.0", "-NaN", "-9223372036854775808.0", "9223372036854775808.0", "-1.0"];
 const TEXT_POOL: [&str; 12] = ["", "a", "ab", "b", "B", "é", "z", "😀", "a ", "10", "9", "A"];
 const TS_POOL: [&str; 6] = ["2021-03-04 05:06:07", "2021-03-04 05:06:08", "1999-12-31 23:59:59", "2021-03-04 05:06:06", "2038-01-19 03:14:08", "1970-01-01 00:00:00"];
 /// instants with microseconds (multi-group TIMESTAMP column with the MICROSECONDS modifier)
